@@ -25,6 +25,8 @@ class Scenario:
     self.elem_typ = {}         # model name -> element typ of a deque / key typ of a dict
     self.sym_inputs = {}       # state variable -> (lo, hi): symbolic initial value
     self.global_locks = []     # (module name, global name, model name) of module-level locks met while translating
+    self.value_typ = {}        # dict model name -> typ of its values (e.g. ('listref', <MLists>))
+    self.record_pyclass = {}   # RecordClass name -> the python class its records stand for (type(x) == Class)
     self.stored_attrs = {}     # (model name, attribute) -> value stored into an ignored attribute of a model object (thread.name)
     self.spawned = {}          # tid -> MThread model: programs of threads that the code under test creates and starts
     self.notes = []
@@ -52,6 +54,8 @@ class Scenario:
     ("Queue", "put_nowait"): ["Full"], ("Queue", "get_nowait"): ["Empty"], ("Queue", "task_done"): ["ValueError"],
     ("deque", "pop"): ["IndexError"], ("deque", "popleft"): ["IndexError"], ("deque", "getitem"): ["IndexError"],
     ("RLock", "release"): ["RuntimeError"], ("Thread", "start"): ["RuntimeError"], ("Thread", "join"): ["RuntimeError"],
+    ("lists", "new"): ["ModelCapacity"], ("lists", "append"): ["ModelCapacity"], ("lists", "iter_next"): ["StopIteration"], ("lists", "getitem"): ["IndexError"],
+    ("PriorityQueue", "put"): ["ModelCapacity"], ("PriorityQueue", "task_done"): ["ValueError"],
     ("dict", "getitem"): ["KeyError"], ("dict", "setitem"): ["ModelCapacity"], ("dict", "next"): ["RuntimeError", "StopIteration"],
   }
 
@@ -142,7 +146,7 @@ class System:
     self.ends = {p.tid: [n.id for n in p.nodes if isinstance(n, ir.End)] for p in self.programs}
 
   READS = {"get_default", "is_set", "qsize", "full", "empty", "__len__", "getitem", "load", "contains", "values_contains", "snapshot", "snapshot_items", "snapshot_keys",
-           "snapshot_values", "is_alive", "iter", "next", "sleep"}
+           "snapshot_values", "is_alive", "iter", "next", "sleep", "iter_next"}
 
   def find_invisible(self):
     """an operation is invisible (merged into the preceding step like local computation) when it can never block and its object is
